@@ -22,6 +22,7 @@ EXPLANATION = (
     "when the cap is huge' (a capped size is min(uncapped, chi)). The tracker "
     "arithmetic and the agreement of the hypergraph's survival rule with the tree's "
     "(C18-SURV) are separate."
+    "Round 7: (BRACKET) every compress / contract of a tracked hypergraph lies between the tracker's update_pre / update_post calls. "
 )
 ASSUMPTIONS = ("the default cap `max(size_dict.values()) ** 2` is a definition of chi, not a use",)
 
